@@ -440,7 +440,10 @@ func (g *inGen) elName() string {
 }
 
 var entityForms = []string{"&amp;", "&lt;", "&gt;", "&quot;", "&#39;", "&#x3c;", "&#60;", "&#x3C", "&notanentity;", "&", "&#",
-	"&#x", "&amp", "&nbsp;", "&#0;", "&#x110000;", "&Aacute;", "&lt", "&#9;"}
+	"&#x", "&amp", "&nbsp;", "&#0;", "&#x110000;", "&Aacute;", "&lt", "&#9;",
+	// numeric references to the characters serialisers treat specially
+	"&#13;", "&#xD;", "&#xd;", "&#10;", "&#x0A;", "&#34;", "&#38;", "&#62;", "&#43;", "&#96;", "&#x2F;", "&#160;", "&#x27;", "&#13;&#10;",
+	"&NewLine;", "&Tab;", "&apos;", "&#128;", "&#x80;", "&#xFFFD;", "&#xD800;", "&amp;amp;", "&amp;#13;", "&#x26;lt;"}
 
 func (g *inGen) text() string {
 	var sb strings.Builder
